@@ -400,6 +400,14 @@ ELEMENT_CONTRACTS = {
                      lambda L, o: {0: ('prefix', L, min(1, len(L)))}),
     'toDict': ('$c.toDict(tick($, $), tick(100 + $, $ * 2))',
                lambda L, o: {0: L, 100: L}),
+    # per element: the key selector, then the value selector
+    'toDict-order': ('$c.toDict(tick($, $), tick(100 + $, $ * 2))',
+                     lambda L, o: {'log': [t for x in L
+                                           for t in (x, 100 + x)]}),
+    'toDict-order-kw': ('$c.toDict(tick($, $), valueSelector => '
+                        'tick(100 + $, $ * 2))',
+                        lambda L, o: {'log': [t for x in L
+                                              for t in (x, 100 + x)]}),
     'groupBy': ('$c.groupBy(tick($, $ mod 2), tick(100 + $, $), '
                 'tick(200 + $[0], $.len()))',
                 lambda L, o: {0: L, 100: L, 200: _first_keys(L)}),
